@@ -63,6 +63,8 @@ def St.seg? (st : St) (n : String) : Option Seg := (st.segs.get? n).map (·.1)
 inductive Verdict
   | exact (want : String)
   | pred (ok : String → Bool) (descr : String)
+  /-- like `pred`, with the reason for a rejection (`none` = accepted) -/
+  | explain (why : String → Option String) (descr : String)
   | none
 
 def kvOf (obs : String) (k : String) : Option String :=
@@ -476,8 +478,8 @@ def commandObs (st : St) (c : Cmd) : St × Verdict :=
   | "dumpfile" =>
     match st.files.get? (c.arg 0) with
     | none => (st, .exact "scripterror:nofile")
-    | some s => (st, .pred (fun g => Layout.checkDump s g)
-        ("file decodes, by the documented v16 layout, to exactly the model content " ++ "(Layout.checkDump)"))
+    | some s => (st, .explain (fun g => Layout.analyze s g)
+        ("file decodes, by the documented v16 layout, to exactly the model content " ++ "(Layout.analyze)"))
   | "footer" =>
     -- document count and chunk mode are the model's own when it knows the file (the generator's
     -- `docs=` / `mode=` only serve for buffers and files the model has no segment for)
